@@ -1,8 +1,10 @@
-From Coq Require Import ZArith QArith Qround Lia.
+(** C17 - the collector's time slot for float arguments: over exact rationals, and in binary64. *)
+From Coq Require Import ZArith QArith Qround Lia Floats.
+From PGV Require Import Diagnostics.
 Open Scope Q_scope.
-(** * 6. the time slot for float arguments, read as the exact rationals they are
-    Python's float [t // dt] is the floor of the exact quotient of the two doubles. *)
-Definition dg_slot_q (t dt : Q) (saveStep : Z) : Z := (Qfloor (t / dt) mod saveStep)%Z.
+(** * the time slot for float arguments, read as the exact rationals they are:
+    ti = int(t/dt + 0.5) (nearest step, half up, t >= 0), idx = ti % saveStep *)
+Definition dg_slot_q (t dt : Q) (saveStep : Z) : Z := (Qfloor (t / dt + (1 # 2)) mod saveStep)%Z.
 
 Lemma dg_qfloor_unique (x : Q) (k : Z) : inject_Z k <= x -> x < inject_Z (k + 1) -> Qfloor x = k.
 Proof. intros H1 H2.
@@ -11,18 +13,54 @@ Proof. intros H1 H2.
   { rewrite Zlt_Qlt. apply Qle_lt_trans with x; [apply Qfloor_le|exact H2]. }
   lia. Qed.
 
-(** a time inside step k, [k dt <= t < (k+1) dt], goes to slot k mod saveStep; in particular t = k dt exactly *)
-Lemma dg_slot_q_of_step (t dt : Q) (k s : Z) : 0 < dt -> inject_Z k * dt <= t -> t < inject_Z (k + 1) * dt ->
+(** a time closer than dt/2 to k dt (from below: at most dt/2) belongs to step k *)
+Lemma dg_slot_q_of_step (t dt : Q) (k s : Z) : 0 < dt ->
+  inject_Z k * dt - dt * (1 # 2) <= t -> t < inject_Z k * dt + dt * (1 # 2) ->
   dg_slot_q t dt s = (k mod s)%Z.
 Proof. intros Hdt H1 H2. unfold dg_slot_q. f_equal. apply dg_qfloor_unique.
-  - apply Qle_shift_div_l; assumption.
-  - apply Qlt_shift_div_r; assumption. Qed.
+  - assert (E : inject_Z k == (inject_Z k * dt - dt * (1 # 2)) / dt + (1 # 2)) by (field; intros K; rewrite K in Hdt; discriminate).
+    rewrite E. apply Qplus_le_l. apply Qle_shift_div_l; [exact Hdt|].
+    rewrite Qmult_comm, Qmult_div_r by (intros K; rewrite K in Hdt; discriminate). exact H1.
+  - assert (E : inject_Z (k + 1) == (inject_Z k * dt + dt * (1 # 2)) / dt + (1 # 2)).
+    { rewrite inject_Z_plus. field. intros K; rewrite K in Hdt; discriminate. }
+    rewrite E. apply Qplus_lt_l. apply Qlt_shift_div_l; [exact Hdt|].
+    rewrite Qmult_comm, Qmult_div_r by (intros K; rewrite K in Hdt; discriminate). exact H2.
+Qed.
 
 Lemma dg_slot_q_exact (dt : Q) (k s : Z) : 0 < dt -> dg_slot_q (inject_Z k * dt) dt s = (k mod s)%Z.
-Proof. intros Hdt. apply dg_slot_q_of_step; [exact Hdt|apply Qle_refl|].
-  apply Qmult_lt_compat_r; [exact Hdt|]. rewrite <- Zlt_Qlt. lia. Qed.
+Proof. intros Hdt. apply dg_slot_q_of_step; [exact Hdt| |].
+  - rewrite <- (Qplus_0_r (inject_Z k * dt)) at 2. unfold Qminus. apply Qplus_le_r.
+    apply Qle_trans with (- 0); [|apply Qle_refl]. apply Qopp_le_compat. apply Qmult_le_0_compat; [apply Qlt_le_weak; exact Hdt|discriminate].
+  - rewrite <- (Qplus_0_r (inject_Z k * dt)) at 1. apply Qplus_lt_r.
+    apply Qmult_lt_0_compat; [exact Hdt|reflexivity]. Qed.
 
-(** the hypothesis is necessary: the double nearest to 1/10 is larger than 1/10, so five of them exceed
-    the double 0.5 = 1/2 and the step at t = 0.5 is sent to slot 4 *)
-Example dg_slot_q_tenth : dg_slot_q (1 # 2) (3602879701896397 # 36028797018963968) 6 = 4%Z.
-Proof. vm_compute. reflexivity. Qed.
+Example dg_slot_q_tenth :
+  dg_slot_q (1 # 2) (3602879701896397 # 36028797018963968) 6 = 5%Z
+  /\ (Qfloor ((1 # 2) / (3602879701896397 # 36028797018963968)) mod 6 = 4)%Z.
+Proof. vm_compute. split; reflexivity. Qed.
+
+(** on integers the rational model is the integer model of Diagnostics.v *)
+Lemma dg_slot_q_Z (t dt s : Z) : (0 < dt)%Z -> dg_slot_q (inject_Z t) (inject_Z dt) s = dg_slot t dt s.
+Proof.
+  intros Hdt. unfold dg_slot.
+  pose proof (Z.div_mod (2 * t + dt) (2 * dt) ltac:(lia)) as Hdm.
+  pose proof (Z.mod_pos_bound (2 * t + dt) (2 * dt) ltac:(lia)) as Hb.
+  set (q := ((2 * t + dt) / (2 * dt))%Z) in *.
+  apply dg_slot_q_of_step.
+  - change 0 with (inject_Z 0). rewrite <- Zlt_Qlt. exact Hdt.
+  - unfold Qle, Qminus, Qplus, Qmult, Qopp, inject_Z. cbn. nia.
+  - unfold Qlt, Qminus, Qplus, Qmult, Qopp, inject_Z. cbn. nia.
+Qed.
+
+(** the same expression in binary64 (what CPython evaluates for float arguments): int() truncates *)
+Definition dg_trunc_f (x : float) : Z :=
+  match Prim2SF x with
+  | S754_finite sg m e =>
+      let a := if (0 <=? e)%Z then (Zpos m * 2 ^ e)%Z else (Zpos m / 2 ^ (- e))%Z in if sg then (- a)%Z else a
+  | _ => 0%Z
+  end.
+Definition dg_slot_f (t dt : float) (s : Z) : Z := (dg_trunc_f (t / dt + 0.5)%float mod s)%Z.
+
+Example dg_slot_f_tenth : dg_slot_f 0.5%float 0x1.999999999999ap-4%float 6 = 5%Z /\ dg_slot_f 0x1.3333333333334p-2%float 0x1.999999999999ap-4%float 6 = 3%Z
+  /\ dg_slot_f 7%float 2%float 3 = 1%Z.
+Proof. vm_compute. repeat split. Qed.
